@@ -29,7 +29,32 @@ def run(ctx):
     for c, a in zip(cat_cases, C.harness([S.compress_line(c) for c in cat_cases], timeout=600)):
         if a.startswith("ok bytes="):
             files.append({"dt": c["dt"], "hex": a.split(" ")[1][len("bytes="):], "chunks": c["chunks"], "order": 0, "desc": "%s/categorical" % c["dt"]})
+    # many more categorical files, truncated only where a chunk body ends (the last bytes of a one-chunk file): a body
+    # that ends exactly on a 64-bit word boundary with a short code as its last bits is rare (about 1 file in 60)
+    tail_cases = []
+    for _ in range(2500 if ctx.quick else 20000):
+        dt = rng.choice([d for d in S.ALL_DT if d != "bool"])
+        k = rng.range(3, 7)
+        vals = []
+        while len(vals) < k:
+            v = __import__("qco.gen", fromlist=["x"]).random_pattern(rng, dt)
+            if v not in vals:
+                vals.append(v)
+        pool = [v for i, v in enumerate(vals) for _ in range(1 << max(0, k - 1 - i))]
+        n = rng.range(20, 700)
+        xs = [rng.choice(pool) for _ in range(n - 1)] + [vals[0]]
+        tail_cases.append({"dt": dt, "level": 8, "order": 0, "gcds": rng.below(2), "chunks": [xs], "kinds": ["categorical-tail"], "drain": 0})
+    tail_files = []
+    for c, a in zip(tail_cases, C.harness([S.compress_line(c) for c in tail_cases], timeout=900)):
+        if a.startswith("ok bytes="):
+            tail_files.append({"dt": c["dt"], "hex": a.split(" ")[1][len("bytes="):], "desc": "%s/categorical-tail" % c["dt"]})
     lines, info = [], []
+    for f in tail_files:
+        nb = len(f["hex"]) // 2
+        for L in (nb - 1, nb - 2, nb - 9):
+            if L >= 0:
+                lines.append("dops %s 100000 W%s D" % (f["dt"], f["hex"][:2 * L]))
+                info.append((f, L))
     for f in files:
         nb = len(f["hex"]) // 2
         if nb <= 1500:
